@@ -176,8 +176,7 @@ func VerifC10_RejectedAddType() {
 }
 
 // VerifC10_SharedTypeAfterFailure: ONE type object with `allOf: ["@B", "@M"]`
-// is registered in a first root whose compile fails half-way (@M missing or
-// not an object there) and then in a second root where everything it needs is
+// is registered in a first root whose compile fails half-way (@M missing, not an object, or repeating a key there) and then in a second root where everything it needs is
 // registered: the second root gives the results a fresh process gives.
 func VerifC10_SharedTypeAfterFailure() {
 	zzverif.Expect("first-fails")
@@ -194,7 +193,10 @@ func VerifC10_SharedTypeAfterFailure() {
 		return r
 	}
 	shared := New("@A", typeText)
-	first := mk(shared, []string{"", `1`, `[1]`}[zzverif.IntRange("firstM", 0, 2)])
+	// @M missing, not an object, or an object that repeats a key of @B / of the heir
+	fm := zzverif.IntRange("firstM", 0, 4)
+	zzverif.Assume(!(fm == 3 && allOf == `"@M"`)) // {"b": 9} only clashes when @B is inherited too
+	first := mk(shared, []string{"", `1`, `[1]`, `{"b": 9}`, `{"a": 9}`}[fm])
 	if zzverif.Bool("viaExample") {
 		_, err := first.Example()
 		zzverif.Assert(err != nil, "the first root is refused")
